@@ -37,7 +37,7 @@ func genTyped(t *rapid.T) TypedCase {
 	c.Opts = gen.WriterOptions(t, cols, gen.OptsBias{SmallPages: rapid.Bool().Draw(t, "small"), EncFor: pq.ValidEncodings})
 	c.Ops = gen.WriteOps(t, c.Plan.NumRows())
 	// some histories hand part of the rows, deconstructed, to WriteRows of the same typed writer
-	if c.Type != "OptElems" && rapid.IntRange(0, 3).Draw(t, "mix") == 0 {
+	if rapid.IntRange(0, 3).Draw(t, "mix") == 0 {
 		for i := range c.Ops {
 			if c.Ops[i].Kind == "w" && rapid.IntRange(0, 2).Draw(t, "wr") == 0 {
 				c.Ops[i].Kind = "wr"
